@@ -57,6 +57,7 @@ def failing_blocks(k):
     B.append(('repr_raises_class_in_doctest', ['>>> class R%d:' % k, '...     def __repr__(self):', "...         raise TypeError('nope')",
                                               '>>> t(%d) and R%d()' % (k, k)], ['5'], 3, 'ExtractGotReprException', 'extractrepr'))
     B.append(('bad_directive', ['>>> t(%d)  # xdoctest: +REQUIRES(module:a:b)' % k], [], 0, 'Exception', 'directive'))
+    B.append(('bad_directive_lazy', ['', '>>>   # xdoctest: +REQUIRES(', ''], [], 1, 'Exception', 'directive'))
     B.append(('traceback_want_mismatch', ['>>> boom(%d)' % k], ['Traceback (most recent call last):', 'KeyError: other'], 1, 'GotWantException', 'gotwant'))
     return B
 
@@ -301,7 +302,7 @@ def run(ctx):
                     'doctest': c['doc'], 'case': c, 'diff': [[k, repr(a), repr(b)] for k, a, b in df],
                     'theorem_or_correspondence': 'correspondence run (feeds C09_return_never_raises)'}, bool(problems))
     runner_checks(ctx, cases)
-    ctx.add_rule('fault matrix: 17 failure kinds (wrong output, <BLANKLINE>-only want, exception direct / in a multi-line statement / in called code / '
+    ctx.add_rule('fault matrix: 18 failure kinds (wrong output, <BLANKLINE>-only want, exception direct / in a multi-line statement / in called code / '
                  'in a compound statement / in a helper of an earlier part (longer, shorter), compile-only errors, run-time SyntaxError, raising repr '
                  '(3 flavours), malformed directive, traceback-want mismatch) x position first/middle/last x surrounding shape x verbosity 0..3 x '
                  'on_error return/raise; doctest_module on a module with the bad doctest between two good ones; import failure module; '
